@@ -195,3 +195,110 @@ Print Assumptions npd_end_field_orig_refuted.
 Example npd_end_field_fixed_example :
   exists rep s, mem_load_npd NFixed db90_bytes (start (Some 2%nat)) = Alloc.Ok ((NMENOMEM, rep), s) /\ live s = [].
 Proof. exact npd_end_field_fixed_example_lemma. Qed.
+
+(* ==== the destination after a load; savability of a loaded object (session 5, package B, second box) ============ *)
+Require LV.Data.DataModel LV.Data.DataProofs.
+Require Import LV.Files.LoadFail LV.Files.LoadFailProofs LV.Files.SaveModel LV.Files.LoadFailSave LV.Files.LoadFailSaveProofs.
+
+(* ts_dest_usable: whatever the bytes, the failing request k and the file name, the calls the Touchstone loader has made
+   on the destination when it returns (Files/TsMem.v records them: filetype, set_simple_format, vnadata_init, resize,
+   set_all_z0 / set_z0_vector, add_frequency, set_frequency - tied to the C code by the digest of the destination after
+   every run) leave an object that satisfies the container invariant of property C15: it can be queried,
+   re-initialised, saved and freed.  Values are abstract (V, any three constants). *)
+Theorem ts_dest_usable : forall (V : Type) (vzero vdef vany : V) name_ft bytes k d d',
+  DataProofs.Inv V vzero vdef d -> ts_dest V vzero vdef vany name_ft bytes k d = Some d' -> DataProofs.Inv V vzero vdef d'.
+Proof. exact ts_dest_usable_lemma. Qed.
+Print Assumptions ts_dest_usable.
+
+(* npd_dest_usable: the same for the NPD loader, which never faults, provided every precision it stored directly
+   (vdi_fprecision, vdi_dprecision: not through the setters) is >= 1 *)
+Theorem npd_dest_usable : forall (V : Type) (vzero vdef vany : V) name_ft bytes k d,
+  DataProofs.Inv V vzero vdef d ->
+  match mem_load_npd NFixed bytes (start k) with
+  | Alloc.Ok ((_, rep), _) =>
+      forallb prec_ok (nr_calls rep) = true ->
+      exists d', npd_dest V vzero vdef vany name_ft bytes k d = Some d' /\ DataProofs.Inv V vzero vdef d'
+  | Fault _ => False
+  end.
+Proof. exact npd_dest_usable_lemma. Qed.
+Print Assumptions npd_dest_usable.
+
+(* ... and without that proviso it is false: '#:fprecision 0' loads and leaves precision 0, a value
+   vnadata_set_fprecision refuses and the invariant excludes (the saver clamps it; nothing else reads it) *)
+Theorem npd_dest_precision_refuted :
+  (exists o, load_npd prec0_bytes = NOk o) /\
+  exists d', (npd_dest unit tt tt tt 3 prec0_bytes None harness_dest = Some d') /\
+             (DataModel.fprec unit d' = 0%Z) /\ (~ DataProofs.Inv unit tt tt d').
+Proof. exact npd_dest_precision_refuted_lemma. Qed.
+Print Assumptions npd_dest_precision_refuted.
+
+(* the destination of the memory harness (a 3 x 3 Z object with 2 frequencies) satisfies the invariant: the premise of the
+   two theorems above is met by the object the tie runs on *)
+Example harness_dest_inv : DataProofs.Inv unit tt tt harness_dest.
+Proof. exact harness_dest_inv_lemma. Qed.
+
+(* dest_unchanged_before_init: calls that only store save options (file type, format) leave type, dimensions, z0 mode
+   and every frequency, impedance and cell of the destination as they were *)
+Theorem dest_unchanged_before_init : forall (V : Type) (vzero vdef vany : V) l d,
+  forallb meta_call l = true -> same_object V (run_calls V vzero vdef vany d l) d.
+Proof. exact run_meta_same. Qed.
+Print Assumptions dest_unchanged_before_init.
+
+(* ts_cksave_iff: for every object the Touchstone loader returns, with >= 1 port and >= 1 frequency, and the format the
+   loader left behind: vnadata_cksave accepts exactly when every reference impedance passes the saver's test
+   (not "creal <= 0": the loader's own test) and - for a version-1 object under a strict .sNp name (promote = false) -
+   there are at most four ports and one common impedance; under a .ts name (promote = true) nothing else is asked *)
+Theorem ts_cksave_iff : forall bytes o promote,
+  load_ts bytes = TsParse.Ok o -> (1 <= TsParse.o_ports o)%nat -> TsParse.o_freqs o <> [] ->
+  cksave (ts_sobj promote o) =
+  z0_pos (TsParse.o_z0 o) &&
+  (TsParse.o_v2 o || ((Nat.leb (TsParse.o_ports o) 4 || promote) && (z0_equal (TsParse.o_z0 o) || promote))).
+Proof. exact ts_cksave_iff_lemma. Qed.
+Print Assumptions ts_cksave_iff.
+
+(* load_ts_z0_pos: every reference impedance of an object the Touchstone loader returns has failed the loader's test
+   "x <= 0" (R value, [Reference] values; a NaN passes, as in the C code), which is also the saver's test *)
+Theorem load_ts_z0_pos : forall bytes o, load_ts bytes = TsParse.Ok o -> z0_pos (TsParse.o_z0 o) = true.
+Proof. exact load_ts_z0_pos_lemma. Qed.
+Print Assumptions load_ts_z0_pos.
+
+(* ts_cksave_ts_name: hence every object the Touchstone loader returns, with >= 1 port and >= 1 frequency, in the format
+   the loader left behind, is accepted by vnadata_cksave under a name ending in .ts *)
+Theorem ts_cksave_ts_name : forall bytes o,
+  load_ts bytes = TsParse.Ok o -> (1 <= TsParse.o_ports o)%nat -> TsParse.o_freqs o <> [] -> cksave (ts_sobj true o) = true.
+Proof. exact ts_cksave_ts_name_lemma. Qed.
+Print Assumptions ts_cksave_ts_name.
+
+(* ts_cksave_exact: and under any name the acceptance is exactly: version 2, or (at most four ports or .ts) and (one common
+   impedance - as C compares doubles - or .ts) *)
+Theorem ts_cksave_exact : forall bytes o promote,
+  load_ts bytes = TsParse.Ok o -> (1 <= TsParse.o_ports o)%nat -> TsParse.o_freqs o <> [] ->
+  cksave (ts_sobj promote o) =
+  (TsParse.o_v2 o || ((Nat.leb (TsParse.o_ports o) 4 || promote) && (z0_equal (TsParse.o_z0 o) || promote))).
+Proof. exact ts_cksave_exact_lemma. Qed.
+Print Assumptions ts_cksave_exact.
+
+(* strict Touchstone 1 names: "R nan" with two ports (NaN != NaN) and a five-port version-1 file load but are refused
+   under x.s2p / x.s5p; both are accepted under x.ts *)
+Theorem ts_strict_name_rnan_refuted :
+  exists o, load_ts rnan_bytes = TsParse.Ok o /\ TsParse.o_ports o = 2%nat /\ length (TsParse.o_freqs o) = 1%nat /\
+            cksave (ts_sobj false o) = false /\ cksave (ts_sobj true o) = true.
+Proof. exact ts_strict_name_rnan_refuted_lemma. Qed.
+Print Assumptions ts_strict_name_rnan_refuted.
+Theorem ts_strict_name_five_ports_refuted :
+  exists o, load_ts five_bytes = TsParse.Ok o /\ TsParse.o_ports o = 5%nat /\ length (TsParse.o_freqs o) = 1%nat /\
+            cksave (ts_sobj false o) = false /\ cksave (ts_sobj true o) = true.
+Proof. exact ts_strict_name_five_ports_refuted_lemma. Qed.
+Print Assumptions ts_strict_name_five_ports_refuted.
+
+(* npd_cksave_default: every object the NPD loader returns, with >= 1 port and >= 1 frequency, is accepted for the NPD
+   file type with the default format; the format the loader left behind can be refused ('#:parameters ZdB') *)
+Theorem npd_cksave_default : forall bytes o,
+  load_npd bytes = NOk o -> (1 <= b_columns o)%Z -> b_freqs o <> [] -> cksave (npd_sobj [] o) = true.
+Proof. exact npd_cksave_default_lemma. Qed.
+Print Assumptions npd_cksave_default.
+Theorem npd_format_left_behind_refuted :
+  exists o l, load_npd zdb_bytes = NOk o /\ set_format [90;100;66]%N = Some l /\
+              cksave (npd_sobj l o) = false /\ cksave (npd_sobj [] o) = true.
+Proof. exact npd_format_left_behind_refuted_lemma. Qed.
+Print Assumptions npd_format_left_behind_refuted.
